@@ -185,7 +185,10 @@ func c13ParseDump(b []byte) []c13GInfo {
 		}
 		gi.kind = c13BlockKind(gi.state, blk)
 		gi.blocked = gi.kind != ""
-		gi.waiting = gi.state != "running" && gi.state != "runnable" && gi.state != "syscall"
+		// waiting for another goroutine (not for time, I/O or the runtime): only such a goroutine can be wedged
+		gi.waiting = gi.state == "chan send" || gi.state == "chan receive" || gi.state == "select" ||
+			gi.state == "semacquire" || gi.state == "sync.WaitGroup.Wait" || gi.state == "sync.Mutex.Lock" ||
+			gi.state == "sync.RWMutex.Lock" || gi.state == "sync.RWMutex.RLock" || gi.state == "sync.Cond.Wait"
 		res = append(res, gi)
 	}
 	return res
